@@ -613,3 +613,238 @@ Example m03_hypothesis_satisfiable :
   phase_names_unique x_names_case = true /\
   map (fun s => let '(_, _, fph, _) := s in fph) (statuses (set_obs_s x_names_case (SetCorr.model_run x_names_case))) = [Some 2].
 Proof. vm_compute. split; reflexivity. Qed.
+
+(** ** m06 *)
+(** A namespace-less key (a cluster-scoped object as the ObjectSetPhase API reports it, or a listed object of a
+    cluster-scoped ObjectSet) shares group/kind and name with no OTHER listed object. *)
+Definition nsless_literal (m : oset) (c : okey) : bool :=
+  negb (k_ns c =? 0) ||
+  forallb (fun k => negb ((k_gk k =? k_gk c) && (k_name k =? k_name c)) || okey_eqb k c) (map (spec_key m) (all_objects m)).
+
+Definition nsless_refs_literal (c : scase) : bool :=
+  match find_set (sc_sets c) (sc_kind c) (sc_ns c) (sc_name c) with
+  | None => true
+  | Some m =>
+      negb (is_activeb m) ||
+      match find_cond (os_conds m) CInTransition with
+      | None => true
+      | Some _ =>
+          forallb (nsless_literal m) (map (spec_key m) (all_objects m)) &&
+          forallb (fun ph => match find_phase (sc_phases c) (phase_kind m) (oi_ns (os_id m)) (C15Corr.join m ph) with
+                             | Some p => forallb (nsless_literal m) (op_ctrlof p)
+                             | None => true end) (C15Corr.delegated m)
+      end
+  end.
+
+Lemma covers_literal m ctrlof k :
+  In k (map (spec_key m) (all_objects m)) -> (forall c, In c ctrlof -> nsless_literal m c = true) ->
+  covers ctrlof k -> In k ctrlof.
+Proof.
+  intros Hk Hall [Hin|(c & Hc & Hns & Hg & Hn)]; [exact Hin|].
+  specialize (Hall c Hc). unfold nsless_literal in Hall. rewrite Hns in Hall. cbn in Hall.
+  rewrite forallb_forall in Hall. specialize (Hall k Hk). rewrite Hg, Hn, !N.eqb_refl in Hall. cbn in Hall.
+  apply okey_eqb_spec in Hall. now subst k.
+Qed.
+
+(** a status request that re-sends or lowers Available and keeps Succeeded / InTransition passes the per-request
+    clauses of an active pass *)
+Definition keepish (m : oset) (cs : list cond) (fph : option N) : Prop :=
+  fph = None /\
+  (find_cond cs CAvailable = find_cond (os_conds m) CAvailable \/
+   exists cd, find_cond cs CAvailable = Some cd /\ cd_status cd = SFalse) /\
+  find_cond cs CSucceeded = find_cond (os_conds m) CSucceeded /\
+  find_cond cs CInTransition = find_cond (os_conds m) CInTransition.
+
+Lemma keeps2_keepish m rv cs co rm fph ok : keeps2 m (SMeta (MStatus rv cs co rm fph ok)) -> keepish m cs fph.
+Proof.
+  cbn. intros (Hf & Ha & Hs & Hi). split; [exact Hf|]. split; [|split; assumption].
+  destruct Ha as [Ha|Ha]; [now left|right]. eexists. split; [exact Ha|reflexivity].
+Qed.
+
+Lemma fail_mem_keepish m mem2 rs : os_conds mem2 = os_conds m -> keepish m (os_conds (fail_mem mem2 rs)) None.
+Proof.
+  intros Hc. split; [reflexivity|]. split; [right; eexists; split; [apply fail_mem_available|reflexivity]|].
+  rewrite !fail_mem_other by discriminate. now rewrite Hc.
+Qed.
+
+Theorem m06_sound_partial (c : scase) :
+  nsless_refs_literal c = true -> m06 (set_obs_s c (SetCorr.model_run c)) = true.
+Proof.
+  intros Hlit. unfold m06. rewrite target_model. destruct (SetCorr.model_run c) as [[sw e] r] eqn:E.
+  unfold nsless_refs_literal in Hlit.
+  destruct (find_set (sc_sets c) (sc_kind c) (sc_ns c) (sc_name c)) as [m|] eqn:Ef; [|reflexivity].
+  rewrite events_model, target'_model, post_model.
+  assert (Ef' : find_set (sw_sets (sc_world c)) (sc_kind c) (sc_ns c) (sc_name c) = Some m) by exact Ef.
+  apply andb_true_iff. split; [apply andb_true_iff; split|].
+  - (* archived short-circuit *)
+    destruct (cond_true (os_conds m) CArchived) eqn:Ha; [|reflexivity].
+    destruct (model_archived c m sw e r Ef Ha E) as (_ & -> & _). reflexivity.
+  - (* Succeeded is not withdrawn *)
+    destruct (cond_true (os_conds m) CSucceeded) eqn:Hsu; [|reflexivity]. cbn [negb orb].
+    unfold SetCorr.model_run in E.
+    pose proof (pass_keeps_succeeded (sc_force c) _ _ _ (sc_world c) m sw e r Ef' Hsu E) as Hw.
+    destruct (find_set (sw_sets sw) (sc_kind c) (sc_ns c) (sc_name c)) as [m'|] eqn:Ef2; [|reflexivity]. exact (Hw _ Ef2).
+  - apply statuses_forall. intros rv cs co rm fph ok Hin. rewrite events_model in Hin.
+    unfold SetCorr.model_run in E.
+    destruct (target_kind m) as [(Harch & _ & _)|[(Hgb & Hab & Hg)|(Hab & Hgb & Hact)]].
+    { destruct (model_archived c m sw e r Ef Harch E) as (_ & -> & _). contradiction. }
+    { (* deleting / archiving *)
+      rewrite Hgb, Hab. cbn [negb orb andb]. rewrite andb_true_r.
+      destruct (C06_archival_status (sc_force c) (sc_world c) _ _ _ m sw e r rv cs co rm fph ok Ef' Hg E Hin) as [Ha Hco].
+      rewrite Ha. cbn [andb]. destruct (cond_true cs CArchived); [|reflexivity]. now rewrite (Hco eq_refl). }
+    rewrite Hgb, Hab. cbn [negb orb andb].
+    destruct (SetMonitors.keys_nodup m) eqn:Hk; [|reflexivity]. cbn [negb orb].
+    assert (Hkeep : keepish m cs fph ->
+      match find_cond cs CAvailable with
+      | Some cd => negb (cstatus_eqb (cd_status cd) STrue) || option_eqb cond_eqb (find_cond (os_conds m) CAvailable) (Some cd) || false
+      | None => true end = true /\
+      negb (cond_true cs CSucceeded) || cond_true (os_conds m) CSucceeded = true /\
+      match find_cond cs CInTransition with
+      | Some _ => true
+      | None => match find_cond (os_conds m) CInTransition with None => true | Some _ => false end end = true).
+    { intros (_ & Ha & Hs & Hi). split; [|split].
+      - destruct (find_cond cs CAvailable) as [cd|] eqn:Hcd; [|reflexivity]. destruct Ha as [Ha|(cd' & Ha & Hf)].
+        + rewrite <- Ha. cbn. rewrite cond_eqb_refl'. now rewrite orb_true_r.
+        + injection Ha as <-. now rewrite Hf.
+      - unfold cond_true. rewrite Hs. destruct (match find_cond (os_conds m) CSucceeded with Some c0 => _ | None => false end); reflexivity.
+      - rewrite Hi. destruct (find_cond (os_conds m) CInTransition); reflexivity. }
+    assert (Hkeep' : keepish m cs fph ->
+      match find_cond cs CAvailable with
+      | Some cd => negb (cstatus_eqb (cd_status cd) STrue) || option_eqb cond_eqb (find_cond (os_conds m) CAvailable) (Some cd) ||
+                   (Z.eqb (cd_gen cd) (os_gen m) && match fph with None => true | Some _ => false end &&
+                    forallb (phase_okb m (w_store (sw_w sw))) (locals m) &&
+                    forallb (fun k => match lookup k (w_store (sw_w sw)) with Some o => is_controller Native (os_id m) o | None => false end ||
+                                      existsb (fun ph => match C15Corr.last_seen (C15Corr.join m ph) e None with
+                                                         | Some (Some cur) => controlled_by_uid (op_owners cur) (oi_uid (os_id m)) && existsb (okey_eqb k) (op_ctrlof cur)
+                                                         | _ => false end) (C15Corr.delegated m)) co &&
+                    forallb (fun k => match lookup k (w_store (sw_w sw)) with
+                                      | Some o => negb (is_controller Native (os_id m) o) || existsb (okey_eqb k) co
+                                      | None => true end) (all_keys m))
+      | None => true end &&
+      (negb (cond_true cs CSucceeded) || cond_true (os_conds m) CSucceeded ||
+       (cond_true cs CAvailable && match find_cond cs CInTransition with None => true | Some _ => false end)) &&
+      match find_cond cs CInTransition with
+      | Some _ => true
+      | None => match find_cond (os_conds m) CInTransition with
+                | None => true
+                | Some _ => forallb (fun k => existsb (okey_eqb k) co) (map (spec_key m) (all_objects m)) || false
+                end
+      end = true).
+    { intros Hkp. destruct (Hkeep Hkp) as (H1 & H2 & H3). apply andb_true_iff. split; [apply andb_true_iff; split|].
+      - destruct (find_cond cs CAvailable) as [cd|]; [|reflexivity]. rewrite orb_false_r in H1. now rewrite H1.
+      - now rewrite H2.
+      - destruct (find_cond cs CInTransition); [reflexivity|]. destruct (find_cond (os_conds m) CInTransition); [discriminate|reflexivity]. }
+    destruct (objectset_pass_active2 (sc_force c) (sc_world c) _ _ _ m sw e r Ef' Hact E) as [Hs|Hr].
+    { apply Hkeep'. eapply keeps2_keepish. eapply stopped2_meta; eauto. }
+    destruct Hr as (mem1 & sw1 & sw2 & pevs & rem & pr & pre & Hs & Hst1 & Hph1 & _ & _ & _ & Hdup & Hrp & Hst & Hph & _ & Hpre & Hal).
+    pose proof (after_loop2_coh _ _ _ _ _ _ _ _ _ _ _ _ Hrp Hpre Hal) as Hcoh.
+    pose proof Hs as (Hid & Hphs & Hlife & Hgen & _ & Hconds & _).
+    destruct (after_loop2_meta _ _ _ _ _ _ _ _ _ _ _ _ _ Hrp Hpre Hal Hin) as [Hk2|(f & ok' & Hf & He)].
+    { apply Hkeep'. eapply keeps2_keepish; eauto. }
+    unfold tail_status in Hf. destruct pr as [e0| | |ctrlof failed].
+    { destruct (is_collision e0); [|discriminate]. injection Hf as <-. unfold status_ev, status_ev_f in He.
+      remember (fail_mem _ _) as fm eqn:Efm in He. injection He as _ -> _ _ -> _. subst fm. apply Hkeep'. now apply fail_mem_keepish. }
+    { discriminate Hf. }
+    { injection Hf as <-. unfold status_ev, status_ev_f in He.
+      remember (fail_mem _ _) as fm eqn:Efm in He. injection He as _ -> _ _ -> _. subst fm. apply Hkeep'. now apply fail_mem_keepish. }
+    (* the status computed after the loop *)
+    injection Hf as <-. unfold status_ev_f in He. set (mem2 := set_remotes mem1 rem) in *.
+    remember (final_status (sw_phases sw2) mem2 ctrlof failed) as fs eqn:Efs in He. injection He as _ -> -> _ -> _. subst fs.
+    assert (Hco : os_ctrlof (final_status (sw_phases sw2) mem2 ctrlof failed) = ctrlof) by now destruct (final_status_available (sw_phases sw2) mem2 ctrlof failed) as (? & _ & _ & _ & ?).
+    rewrite Hco.
+    pose proof (dup_zero_nodup _ Hdup) as Hnd1.
+    destruct (rpm_passed (sc_force c) mem1 _ _ _ _ _ _ _ _ _ _ _ Hrp Hnd1) as (ppre & ppost & Hsplit & Hpassed & Hfailed & _ & _).
+    destruct (rpm_ctrlof_state (sc_force c) mem1 _ _ _ _ _ _ _ _ _ _ _ Hrp Hnd1) as (new & Hnew & Hsound). cbn [app] in Hnew. subst new.
+    assert (Hconds2 : os_conds mem2 = os_conds m) by exact Hconds.
+    assert (Hread_e : forall nm, read_in pevs nm -> read_in e nm).
+    { intros nm Hr. unfold after_loop2 in Hal. destruct Hal as (ok2 & -> & _). apply read_in_app_r. now apply read_in_app_l. }
+    assert (Hseen : forall q cur, phase_obj_of sw2 mem1 q = Some cur -> read_in pevs (pobj_name mem1 q) ->
+                      C15Corr.last_seen (C15Corr.join m q) e None = Some (Some cur)).
+    { intros q cur Hq Hr. unfold pobj_name in Hr. rewrite Hid in Hr. fold (C15Corr.join m q) in Hr.
+      specialize (Hcoh (C15Corr.join m q)). pose proof (last_seen_read _ _ (Hread_e _ Hr) None) as Hne.
+      destruct (C15Corr.last_seen (C15Corr.join m q) e None) as [x|]; [|contradiction]. subst x.
+      unfold phase_obj_of, pobj_name in Hq. unfold C15Corr.join. now rewrite <- Hid, Hq. }
+    apply andb_true_iff. split; [apply andb_true_iff; split|].
+    + (* Available *)
+      rewrite final_status_available_eq. destruct failed as [nf|]; [reflexivity|]. cbn [cd_status mk_cond cstatus_eqb negb orb cd_gen].
+      apply orb_true_iff. right. subst ppost. rewrite app_nil_r in Hsplit. subst ppre.
+      assert (os_gen mem2 = os_gen m) as -> by exact Hgen. rewrite Z.eqb_refl. cbn [andb].
+      apply andb_true_iff. split; [apply andb_true_iff; split|].
+      * apply forallb_forall. intros q Hq. unfold locals in Hq. apply filter_In in Hq. destruct Hq as [Hq Hcq]. apply negb_true_iff in Hcq.
+        rewrite <- Hphs in Hq. pose proof (Hpassed q Hq) as Hpq. unfold passed in Hpq. rewrite Hcq in Hpq. rewrite Hst.
+        apply phase_ok2_okb. eapply phase_ok2_same; eauto.
+      * apply forallb_forall. intros k Hkc. rewrite Forall_forall in Hsound. apply orb_true_iff.
+        destruct (Hsound k Hkc) as [[_ (o & Ho & Hc)]|(q & cur & Hq & Hcq & Hcur & Hown & Hkq & Hrd)].
+        -- left. rewrite Hst, Ho. cbn [ow_id as_owner] in Hc. now rewrite <- Hid.
+        -- right. apply existsb_exists. exists q. split; [unfold C15Corr.delegated; apply filter_In; rewrite <- Hphs; auto|].
+           rewrite (Hseen q cur Hcur Hrd). rewrite <- Hid, Hown. cbn [andb]. now apply existsb_okey.
+      * apply forallb_forall. intros k Hkk. rewrite Hst.
+        destruct (lookup k (w_store (sw_w sw2))) as [o|] eqn:Ho; [|reflexivity].
+        destruct (is_controller Native (os_id m) o) eqn:Hc; [|reflexivity]. cbn [negb orb]. apply existsb_okey.
+        eapply (rpm_ctrlof_complete (sc_force c) mem1 _ _ _ _ _ _ _ _ _ _ Hrp Hnd1).
+        -- rewrite all_keys_eq in Hkk. unfold local_keys. fold (local_phases mem1).
+           destruct (as_owner_keys _ _ Hs) as (Hl & _). rewrite Hl.
+           erewrite flat_map_ext; [exact Hkk|]. intros ph. now apply phase_keys_same.
+        -- exists o. split; [exact Ho|]. cbn [ow_id as_owner]. now rewrite Hid.
+    + (* Succeeded *)
+      destruct (cond_true (os_conds (final_status (sw_phases sw2) mem2 ctrlof failed)) CSucceeded) eqn:Hs1; [|reflexivity].
+      destruct (cond_true (os_conds m) CSucceeded) eqn:Hs0; [reflexivity|]. cbn [negb orb].
+      rewrite <- Hconds2 in Hs0.
+      destruct (proj2 (final_status_succeeded (sw_phases sw2) mem2 ctrlof failed) Hs0 Hs1) as [-> Hintr].
+      unfold cond_true at 1. rewrite final_status_available_eq, final_status_in_transition_eq, Hintr. reflexivity.
+    + (* InTransition *)
+      rewrite final_status_in_transition_eq. destruct (in_transition (set_ctrlof mem2 ctrlof) ctrlof) eqn:Hintr; [reflexivity|].
+      rewrite Hab in Hlit. cbn [negb orb] in Hlit.
+      destruct (find_cond (os_conds m) CInTransition) as [ci|]; [|reflexivity]. rewrite orb_false_r.
+      apply andb_true_iff in Hlit. destruct Hlit as [Hl1 Hl2]. rewrite forallb_forall in Hl1, Hl2.
+      assert (Hall : forall c0, In c0 ctrlof -> nsless_literal m c0 = true).
+      { intros c0 Hc0. rewrite Forall_forall in Hsound.
+        destruct (Hsound c0 Hc0) as [[Hloc _]|(q & cur & Hq & Hcq & Hcur & _ & Hkq & _)].
+        - apply Hl1. unfold local_keys in Hloc. apply in_flat_map in Hloc. destruct Hloc as (ph & Hph' & Hkp).
+          apply filter_In in Hph'. destruct Hph' as [Hph' _]. rewrite (phase_keys_same _ _ Hs) in Hkp.
+          unfold phase_keys in Hkp. apply in_map_iff in Hkp. destruct Hkp as (p & <- & Hp).
+          apply in_map. unfold all_objects. apply in_flat_map. exists ph. split; [now rewrite <- Hphs|exact Hp].
+        - unfold phase_obj_of in Hcur.
+          destruct (rpm_back (sc_force c) mem1 _ _ _ _ _ _ _ _ _ _ _ _ _ _ Hrp Hcur) as [Hnil|(p0 & Hp0 & Hc0')]; [rewrite Hnil in Hkq; contradiction|].
+          assert (Hq' : In q (C15Corr.delegated m)) by (unfold C15Corr.delegated; apply filter_In; rewrite <- Hphs; auto).
+          specialize (Hl2 q Hq'). rewrite Hph1 in Hp0. unfold pobj_name in Hp0. unfold phase_kind in Hp0, Hl2. rewrite Hid in Hp0.
+          change (sw_phases (sc_world c)) with (sc_phases c) in Hp0. unfold C15Corr.join in Hl2. rewrite Hp0 in Hl2.
+          rewrite forallb_forall in Hl2. apply Hl2. now rewrite Hc0'. }
+      apply forallb_forall. intros k Hkk. apply existsb_okey. apply (covers_literal m ctrlof k Hkk Hall).
+      assert (Hlf : os_life (set_ctrlof mem2 ctrlof) <> LArchived).
+      { cbn [os_life set_ctrlof set_remotes mem2]. rewrite Hlife. now destruct Hact as (_ & _ & ?). }
+      apply in_map_iff in Hkk. destruct Hkk as (p & <- & Hp).
+      assert (Hp' : In p (all_objects (set_ctrlof mem2 ctrlof))) by (unfold all_objects in *; cbn [os_phases set_ctrlof set_remotes mem2]; now rewrite Hphs).
+      pose proof (not_in_transition_all_controlled _ _ Hintr Hlf p Hp') as Hcov.
+      unfold spec_key, desired_key, as_owner in *. cbn [ow_id os_id set_ctrlof set_remotes mem2] in Hcov. now rewrite Hid in Hcov.
+Qed.
+
+(** *** The refuting case: a delegated phase whose phase object reports its (namespaced) object without a namespace.
+    The model - like isObjectSetInTransition - lets that reference stand for the listed object and clears
+    InTransition; the monitor demands the listed key literally in controllerOf and raises a false alarm. *)
+Definition x_avail (g : Z) : cond := {| cd_type := CAvailable; cd_status := STrue; cd_reason := RAvailable; cd_gen := g |}.
+Definition x_intr : cond := {| cd_type := CInTransition; cd_status := STrue; cd_reason := RInTransition; cd_gen := 1 |}.
+Definition x_pobj (nm : N) (paused : bool) (ctrlof : list okey) (conds : list cond) : osphase :=
+  {| op_id := {| oi_kind := KObjectSetPhase; oi_ns := 1; oi_name := nm; oi_uid := 300 |}; op_rv := 7; op_gen := 1;
+     op_owners := [x_ref]; op_deleting := false; op_fin := true; op_orphan := false; op_pkg := 0; op_class := 1;
+     op_paused := paused; op_revision := 1; op_prev := []; op_objects := [x_po 1 1]; op_conds := conds; op_ctrlof := ctrlof |}.
+Definition x_remote_set (life : lifecycle) (conds : list cond) (remotes : list (N * N)) (revision : Z) (prev : list N) : oset :=
+  x_set [ {| ph_name := 1; ph_class := true; ph_objects := [x_po 1 1] |} ] life conds remotes revision prev.
+Definition x_nsless_case : scase :=
+  case_of false (x_world [] [x_remote_set LActive [x_intr] [] 1 []]
+                   [x_pobj 10001 false [{| k_gk := 1; k_ns := 0; k_name := 1 |}] [x_avail 1]]) KObjectSet 1 10.
+
+Theorem m06_refuted :
+  exists c, nsless_refs_literal c = false /\ m06 (set_obs_s c (SetCorr.model_run c)) = false.
+Proof. exists x_nsless_case. vm_compute. split; reflexivity. Qed.
+
+(** the hypothesis holds (non-trivially: InTransition is stored, the phase object reports a reference) when the
+    reference carries the namespace; the same pass then clears InTransition and the monitor accepts it *)
+Definition x_nsfull_case : scase :=
+  case_of false (x_world [] [x_remote_set LActive [x_intr] [] 1 []]
+                   [x_pobj 10001 false [x_key 1 1] [x_avail 1]]) KObjectSet 1 10.
+Example m06_hypothesis_satisfiable :
+  nsless_refs_literal x_nsfull_case = true /\
+  map (fun s => let '(cs, co, _, _) := s in (find_cond cs CInTransition, co)) (statuses (set_obs_s x_nsfull_case (SetCorr.model_run x_nsfull_case)))
+  = [(None, [x_key 1 1])].
+Proof. vm_compute. split; reflexivity. Qed.
